@@ -229,3 +229,17 @@ theorem C01_builder_is_the_source (dg : SrcH.defaultGrowerSimple) (hv : dg.enabl
     rw [he] at hgrow
     exact ⟨h'', hgrow, (hrest he).2.2⟩
 end Gtree
+
+namespace Gtree
+/-- `feedM` of `C01_builder_is_the_source` is the model's generator on the rows of one block: folding `addItem` — the
+    function the model's `genStep` calls for a parsed row — over items below root level, from a state whose current root
+    is `z`, fails exactly when `feedM` is undefined (with the format error naming a row of the block) and otherwise ends
+    with `feedM`'s zipper as the current root.  So the tree `C01_builder_is_the_source` finds in the heap is the tree
+    `C01_generate_roundtrip` is about. -/
+theorem C01_feedM_is_the_models_generator (its : List (Nat × Bytes × Bytes)) (s : GState) (z : Zipper)
+    (hs : s.cur = some z) (hk : ∀ it ∈ its, it.1 ≠ 1) :
+    (match SrcH.feedM z (its.map (fun it => (it.1, it.2.1))) with
+     | none => ∃ row, SrcH.addItems s its = .error (.format row) ∧ row ∈ its.map (fun it => it.2.2)
+     | some z' => SrcH.addItems s its = .ok { s with cur := some z' }) :=
+  SrcH.addItems_feedM its s z hs hk
+end Gtree
